@@ -42,6 +42,8 @@ var endings = []ending{
 	{Name: "uncaught-in-function", Class: "uncaught", Body: "function f() { throw new Exception(\"inf\"); }\nf();", Error: true, PriorRuns: true},
 	{Name: "uncaught-in-finally", Class: "uncaught", Body: "try { echo \"t\\n\"; } finally { throw new Exception(\"fin\"); }", Error: true, PriorRuns: true},
 	{Name: "uncaught-rethrown-from-catch", Class: "uncaught", Body: "try { throw new Exception(\"a\"); } catch (Exception $e) { throw new Exception(\"b\"); } finally { echo \"f\\n\"; }", Error: true, PriorRuns: true},
+	{Name: "uncaught-in-coalesce-left", Class: "uncaught", Body: "function thrower() { throw new Exception(\"boom\"); }\n$v = thrower() ?? 1;\necho \"carried on\\n\";", Error: true, PriorRuns: true},
+	{Name: "uncaught-in-interpolation", Class: "uncaught", Body: "class T { function m() { throw new Exception(\"boom\"); } }\n$o = new T();\n$v = \"a{$o->m()}b\";\necho \"carried on\\n\";", Error: true, PriorRuns: true},
 	{Name: "parse-error-unclosed-paren", Class: "parse", Body: `if (`, Error: true},
 	{Name: "parse-error-stray-brace", Class: "parse", Body: `}`, Error: true},
 	{Name: "parse-error-class-without-name", Class: "parse", Body: `class { }`, Error: true},
